@@ -78,6 +78,9 @@ def run(res, tier, seed, shard, nshards):
                     if k % nshards != shard:
                         continue
                     addr_case(res, W, rng, lst, setting)
+                    if (k // nshards) % 4 == 1:
+                        # the timeout given to connect() itself, on an object that already carries another one (0 / 0.0 are timeouts too)
+                        addr_case(res, W, rng, lst, setting, connect_timeout=[0, 0.0, 2.5][setting])
                     if len(lst) >= 2 and (k // nshards) % 3 == 0:
                         # the same list with failures that take a while to come back (each well within the socket timeout, all
                         # of them together longer than it)
@@ -228,7 +231,7 @@ def proxy_addr_case(res, W, rng, lst, timeout, ptimeout):
     w.shutdown()
 
 
-def addr_case(res, W, rng, lst, setting, slow=False):
+def addr_case(res, W, rng, lst, setting, slow=False, connect_timeout=None):
     H.reset_process_state()
     net_ = H.make_net()
     ips = [f"198.51.100.{i + 1}" for i in range(len(lst))]
@@ -254,6 +257,10 @@ def addr_case(res, W, rng, lst, setting, slow=False):
                  [(_socket.SOL_SOCKET, _socket.SO_SNDBUF, 20000), (_socket.IPPROTO_TCP, getattr(_socket, "TCP_SYNCNT", 7), 3), (_socket.SOL_SOCKET, _socket.SO_SNDBUF, 30000)]][setting]
     timeout = [3, 7.5, None][setting]
     via = ["create_connection", "default-timeout", "connect"][(len(lst) + sum(map(len, lst)) + setting) % 3]
+    if connect_timeout is not None:
+        via = "connect-with-own-timeout"
+        timeout = connect_timeout
+        res.count("connect_calls_with_their_own_timeout")
     # somebody else in the process has set the interpreter-wide socket default: the library's own setting must still be applied
     foreign = 0.25 if (len(lst) + setting) % 2 == 0 else None
     _socket.setdefaulttimeout(foreign)
@@ -264,6 +271,10 @@ def addr_case(res, W, rng, lst, setting, slow=False):
             # the process-wide default applies when the caller gives no timeout
             W.setdefaulttimeout(timeout)
             w = W.create_connection("ws://multi.test:8080/", sockopt=user_opts)
+        elif via == "connect-with-own-timeout":
+            w = W.WebSocket(sockopt=user_opts)
+            w.settimeout(7)
+            w.connect("ws://multi.test:8080/", timeout=connect_timeout)
         else:
             w = W.WebSocket(sockopt=user_opts)
             w.connect("ws://multi.test:8080/", timeout=timeout)
@@ -279,8 +290,8 @@ def addr_case(res, W, rng, lst, setting, slow=False):
     res.count("address_lists")
     if slow:
         res.count("address_lists_with_slow_failures")
-    res.case(("addr", lst, setting, slow), nontrivial=len(lst) >= 2)
-    case = {"outcomes": lst, "setting": setting, "slow_failures": slow}
+    res.case(("addr", lst, setting, slow, connect_timeout), nontrivial=len(lst) >= 2)
+    case = {"outcomes": lst, "setting": setting, "slow_failures": slow, "via": via, "timeout": timeout}
     # reference
     exp_attempts = []
     exp_result = None
